@@ -10,6 +10,7 @@
 # and the extracted model replays it.
 import itertools
 import json
+import re
 import os
 
 from . import common, fttaskx, pure
@@ -476,6 +477,37 @@ def corpus_scripts():
     return out
 
 
+def storm_stream(chk, binary):
+    """Monitor-only: many goroutines calling SendDelayed exactly while the scheduler handles a tick (cmd/fttaskx
+    c10storm; virtual clock, GOMAXPROCS=2 so that senders and scheduler run in parallel): exactly once, never early,
+    less than one tick late. One process per case (each starts from a fresh global delayed queue)."""
+    quick = chk.tier == "quick"
+    cfgs = [(4, 400, 300), (2, 1500, 50), (8, 150, 1000)] if quick else [(4, 400, 300), (2, 1500, 50), (8, 150, 1000), (4, 3000, 2000), (16, 200, 4000), (3, 1000, 1)] * 3
+    for n, m, p in cfgs:
+        case = "c10storm senders=%d per=%d pre=%d" % (n, m, p)
+        try:
+            out = common.run_impl(binary, [case], env=fttaskx.ENV, timeout=300)[0]
+        except common.ImplCrash as e:
+            chk.monitor_fail("storm-crash", case, str(e)[-600:], "the delayed queue crashed or hung under concurrent SendDelayed calls")
+            continue
+        chk.count_case("concurrent-sends-during-tick", case, True)
+        chk.cov["programs"] += 1
+        mo = re.match(r"total=(\d+) lost=(\d+) dup=(\d+) early=(\d+) late=(\d+) first=(-?\d+)$", out)
+        if not mo:
+            chk.monitor_fail("storm-crash", case, out[:600], "no result from the storm scenario")
+            continue
+        total, lost, dup, early, late, first = map(int, mo.groups())
+        chk.sample(dict(stream="concurrent-sends-during-tick", case=case, impl=out), limit=10)
+        if lost or dup:
+            chk.monitor_fail("exactly-once", case, out, "of %d requests sent by concurrent goroutines around a tick, %d were never placed on their queue and %d were placed more than once (first: request %d)" % (total, lost, dup, first))
+        elif early:
+            chk.monitor_fail("early", case, out, "%d of %d requests were placed before their delay had elapsed" % (early, total))
+        elif late:
+            chk.monitor_fail("late", case, out, "%d of %d requests were placed a full tick or more after their deadline although the target had room" % (late, total))
+        else:
+            chk.cov["traces_validated_against_impl"] += 1
+
+
 def run(chk):
     chk.trusted = common.BASE_TRUSTED + [
         "Go faketime runtime (playground clock) as the source of virtual time; harness/cmd/fttaskx",
@@ -508,6 +540,10 @@ def run(chk):
             chk.cov["cases_loop_blocked"] = sum(1 for s, (st, ln) in zip(scripts, idx) if "roomy=0" in mo[st])
         except Exception as ex:
             chk.infra_errors.append("correspondence run failed: %r" % (ex,))
+        try:
+            storm_stream(chk, binary)
+        except Exception as ex:
+            chk.infra_errors.append("storm stream failed: %r" % (ex,))
         try:
             from . import heapdiff
             pb = pure.build_pure(chk)
